@@ -213,6 +213,15 @@ def jobs(tier):
             out.append(('post', 'case_post', dict(
                 units=c, n_samples=2, times=times, composed_filter=True),
                 {'max_paths': 64}))
+    # two observables at two (unsorted) time points: the (output, time)
+    # layout of the mechanistic sensitivities inside evaluateS1
+    for k, c in enumerate(([U('gaussian'), U('pooled')],
+                           [U('lognormal_nc'), U('gaussian')],
+                           [U('hetero'), U('gaussian_nc')])):
+        out.append(('post', 'case_post', dict(
+            units=c, n_samples=2, n_out=2, times=[2.5, 1.0],
+            sigma_fixed=(k != 1), log_scale=(k == 2)),
+            {'max_paths': 64, 'job_timeout_s': 300}))
     cov = [c for c in c02.compositions(2, [2], covs=(0, 1))
            if any(u['cov'] for u in c)]
     cov = cov[::6] if q else cov[::2]
@@ -237,7 +246,8 @@ def jobs(tier):
 BOUNDS = dict(
     quick='Gaussian filter, 2 simulated individuals, 1 observable, 1..2 '
           '(unsorted) times, 1 measured individual; all compositions of <= 2 '
-          'sub-models of total dimension 2, half of the 64 three-unit '
+          'sub-models of total dimension 2 (plus 3 compositions with 2 '
+          'observables x 2 times), half of the 64 three-unit '
           'compositions, a sixth of the covariate variants; sigma fixed/free '
           'and additive/log-scale noise rotated over the compositions',
     thorough='all 497 compositions of <= 3 sub-models with dimension 2-3, 1-2 '
